@@ -487,10 +487,6 @@ def judge_g1(case, t):
     return list(perm) != sorted(perm) or any(s != 2 for s in opt)
 
 
-def multi_perm(case, ntot):
-    return case["perm"]
-
-
 def judge_g1m(case, t):
     seed, chans, ref, form, route, perm, o = (case["seed"], case["chans"], case["ref"], case["form"], case["route"],
                                               case["perm"], case["opt"])
@@ -888,9 +884,6 @@ def judge_cor1(case, t):
     sheets, exp = geo1_sheets(seed, flat, perm, nobj)
     states = {k: o for k in G1_OPT}
     d, st = apply_cor1(sheets, states, kind, sheet, arg, flat, form, setups)
-    if route != "func" and not route.startswith("file"):
-        # argument route: mandatory arguments cannot be dropped; unknown sheets cannot be expressed
-        pass
     r, obj = call_geo1(route, d, st, ref_ind=ref, chans=chans)
     relaxed = (lambda ob: geo1_errors(ob, exp, st)) if kind.endswith("(relaxed)") else None
     judge_corruption(t, r, case, "geo1", kind, sheet, route, obj, relaxed)
@@ -1525,16 +1518,48 @@ def n_cases(part, a, seed):
     return block_count(part, a, seed)
 
 
+def describe(case):
+    """Human-readable rendering of a case's tables (for the evidence samples)."""
+    d = {}
+    p = case["part"]
+    if "chans" in case and case.get("ref") is not None:
+        su = setup_names(case["chans"])
+        d["setups"] = su
+        d["ref_ind"] = case["ref"]
+        d["expected_sensor_order"] = ref_flatten(su, case["ref"])
+    elif "n" in case:
+        d["expected_sensor_order"] = NAMES[:case["n"]]
+    if "perm" in case and "expected_sensor_order" in d and len(case["perm"]) == len(d["expected_sensor_order"]):
+        d["row_order_of_coordinate_and_direction_tables"] = [d["expected_sensor_order"][i] for i in case["perm"]]
+    if p in ("g2map", "plot2") and "chans" not in case:
+        al = g2map_alphabet(case["n"], case.get("nan", 1))
+        d["mapping_cells_row_major"] = [str(al[i]) for i in case["cells"]]
+    if p == "g2c":
+        d["constraint_columns"] = [NAMES[j] for j in case["cols"]]
+        d["constraint_coefficients"] = [COEF[i] for i in case["coef"]]
+    if case.get("sign") is not None:
+        d["sign_cells_row_major"] = [SIGN[i] for i in case["sign"]]
+    if "opt" in case and isinstance(case["opt"], list):
+        names = G1_OPT if len(case["opt"]) == 4 else G2_OPT
+        d["optional_sheets"] = {k: ["absent", "empty", "present"][s] for k, s in zip(names, case["opt"])}
+    return d
+
+
+SAMPLE_PARTS = ("g1", "g1m", "g2map", "g2c", "cor2", "plot2")
+
+
 def run_item(item):
-    part, a, start, stop, seed, id_base, bi = item
+    part, a, start, stop, seed, id_base, bi, sample_at = item
     t = Tally()
     for i in range(start, stop):
         case = case_of(part, a, i, seed)
+        before = dict(t.outcomes)
         nontrivial = JUDGES[part](case, t)
         if nontrivial:
             t.nontrivial.add(id_base + i)
-        if i == start and start == 0 and part != "g2map":
-            t.sample({"block": bi, "case": case})
+        if i == sample_at:
+            t.sample({"case": case, "tables": describe(case),
+                      "judged_as": [k for k, v in t.outcomes.items() if v != before.get(k, 0)]})
     return t
 
 
@@ -1604,13 +1629,23 @@ def explore(ctx):
     items = []
     bounds = []
     id_off = {}
+    sampled_parts = set()
     for bi, (part, a) in enumerate(B):
         n = n_cases(part, a, seed)
         base = PART_CODE[part] * 10 ** 9 + id_off.get(part, 0)
         id_off[part] = id_off.get(part, 0) + n
         ch = CHUNK.get(part, 100)
+        sample_at = -1
+        big_enough = n >= {"g1": 400, "g2map": 10000}.get(part, 100) and not (part == "g2map" and a["cstr"] != 2)
+        if part in SAMPLE_PARTS and part not in sampled_parts and big_enough:
+            sampled_parts.add(part)
+            sample_at = (2 * n) // 3
+            if part == "g2c":
+                sample_at += 7      # a coefficient row without zeros
+            if part == "g2map":     # a written-out valid table: [ch10, c1, 0 / NaN, ch1, 0]
+                sample_at = sum(d * 5 ** k for k, d in enumerate(reversed([0, 2, 3, 4, 1, 3])))
         for s in range(0, n, ch):
-            items.append((part, a, s, min(n, s + ch), seed, base, bi))
+            items.append((part, a, s, min(n, s + ch), seed, base, bi, sample_at if s <= sample_at < s + ch else -1))
         desc = {k: (v if not isinstance(v, list) or len(v) <= 12 else f"{len(v)} values") for k, v in a.items()}
         bounds.append({"part": part, "axes": desc, "cases": n})
     ctx.bounds = {
